@@ -160,7 +160,7 @@ def verdict(rule, offending, what, construct, msg, fn):
     if not offending:
         rule.ok(what)
         return
-    exact = [o for o in offending if not o[0].get("imprecise", 0)]
+    exact = [o for o in offending if not o[0].get("#imprecise", 0)]
     if exact:
         rule.fail(construct, msg, fn=fn, witness=fmt_trace(exact[0][2]) if exact[0][2] else None)
     else:
@@ -181,31 +181,34 @@ def reply_consumption(prog, r3):
         if scripts is None:
             r3.fail("Client.%s:no-reply-script" % m.name, "Client.%s sends a command but pmcsa/spec.py defines no protocol reply for it: add the method to CALL_SCRIPTS" % m.name, fn=m)
             continue
-        variants = [(n, r, False) for n, r in scripts]
+        variants = [(n, r, False, False) for n, r in scripts]
         if m.param("keys") is not None:
-            variants += [(n, r, True) for n, r in scripts if n]
-        for nkeys, replies, oneshot in variants:
+            variants += [(n, r, True, False) for n, r in scripts if n]
+        if m.param("values") is not None:
+            # two caller keys with one wire form ("k" and b"k"): still two commands and two replies
+            variants += [(2, r, False, True) for n, r in scripts if n == 2]
+        for nkeys, replies, oneshot, alias in variants:
             n_scripts += 1
             shown = [r.decode() if isinstance(r, bytes) else "<close>" for r in replies]
-            outs = script_eval(prog, m.name, replies, nkeys=nkeys, full=True, oneshot=oneshot)
+            outs = script_eval(prog, m.name, replies, nkeys=nkeys, full=True, oneshot=oneshot, alias=alias)
             rets, excs = outs.of("ret"), outs.of("exc")
-            over = [(s, e, t) for s, e, t in excs if s.get("overread", 0)] + [(s, v, t) for s, v, t in rets if s.get("overread", 0)]
-            short = [(s, v, t) for s, v, t in rets if s.get("nread", 0) < len(replies)]
-            what = "Client.%s(%d key%s%s), reply %s" % (m.name, nkeys, "" if nkeys == 1 else "s", " given as a one-shot iterator" if oneshot else "", shown)
+            over = [(s, e, t) for s, e, t in excs if s.get("#overread", 0)] + [(s, v, t) for s, v, t in rets if s.get("#overread", 0)]
+            short = [(s, v, t) for s, v, t in rets if s.get("#nread", 0) < len(replies)]
+            what = "Client.%s(%d key%s%s%s), reply %s" % (m.name, nkeys, "" if nkeys == 1 else "s", " given as a one-shot iterator" if oneshot else "", " with the same wire form" if alias else "", shown)
             verdict(r3, over, "%s: nothing is read beyond the reply" % what, "Client.%s:reads-beyond-reply" % m.name, "%s: the call tries to read another reply item after the %d the protocol defines: it blocks, or consumes the reply of the next request" % (what, len(replies)), m)
-            verdict(r3, short, "%s: returns only after the whole reply" % what, "Client.%s:returns-before-end-of-reply" % m.name, "%s: the call can return after %s of %d reply items: the rest stays queued on the connection and is taken for the reply to the next request" % (what, sorted({s.get("nread", 0) for s, v, t in short}), len(replies)), m)
+            verdict(r3, short, "%s: returns only after the whole reply" % what, "Client.%s:returns-before-end-of-reply" % m.name, "%s: the call can return after %s of %d reply items: the rest stays queued on the connection and is taken for the reply to the next request" % (what, sorted({s.get("#nread", 0) for s, v, t in short}), len(replies)), m)
             if not rets and not over:
                 bad = [(s, e, t) for s, e, t in excs]
                 verdict(r3, bad or [(Env(), None, ())], "%s: the call returns" % what, "Client.%s:valid-reply-rejected" % m.name, "%s: the call never returns normally for this valid reply (it raises %s)" % (what, sorted({str(e.cls) for s, e, t in excs})), m)
             if replies:
-                outs = script_eval(prog, m.name, replies[:-1], nkeys=nkeys, full=True, oneshot=oneshot)
+                outs = script_eval(prog, m.name, replies[:-1], nkeys=nkeys, full=True, oneshot=oneshot, alias=alias)
                 early = outs.of("ret")
                 verdict(r3, early, "%s cut before its last item: no return" % what, "Client.%s:returns-before-end-of-reply" % m.name, "%s: with the last item missing the call still returns (%s): it does not wait for the end of its reply" % (what, sorted({str(v) for s, v, t in early})), m)
         if m.param("noreply") is not None:
             for nkeys in sorted({n for n, r in scripts}):
                 n_scripts += 1
                 outs = script_eval(prog, m.name, (), nkeys=nkeys, noreply=True, full=True)
-                tried = [(s, e, t) for s, e, t in outs.of("exc") if s.get("overread", 0)] + [(s, v, t) for s, v, t in outs.of("ret") if s.get("overread", 0) or s.get("nread", 0)]
+                tried = [(s, e, t) for s, e, t in outs.of("exc") if s.get("#overread", 0)] + [(s, v, t) for s, v, t in outs.of("ret") if s.get("#overread", 0) or s.get("#nread", 0)]
                 verdict(r3, tried, "Client.%s(%d keys, noreply): reads nothing" % (m.name, nkeys), "Client.%s:read-with-noreply" % m.name, "Client.%s with noreply tries to read a reply that the server will never send" % m.name, m)
                 if not outs.of("ret") and not tried:
                     verdict(r3, outs.of("exc") or [(Env(), None, ())], "Client.%s(%d keys, noreply): returns" % (m.name, nkeys), "Client.%s:read-with-noreply" % m.name, "Client.%s with noreply never returns normally" % m.name, m)
